@@ -504,6 +504,9 @@ func checkC16(c *hx.Ctx) {
 	})
 	// ---------- Mode A with the REAL OperationHandler (slice)
 	realHandlerSlice(c)
+	writersSharingCompression(c)
+	c.Floor("rounds_with_writers_sharing_the_compression_registry", 2)
+	c.Floor("real_handler_operations_queued_under_a_namespace_alias", 10)
 	handlerFrontSlice(c)
 	// ---------- Mode B in a child process under the race detector
 	modeB(c)
@@ -572,6 +575,89 @@ func (h *recRealHandler) PrepareTxnFiles(ops []*operation.QueuedOperation) (*pro
 		h.included[info.AnchorString] = inc
 	}
 	return info, nil
+}
+
+// writersSharingCompression: several batch writers of one node (one per namespace) share the node's compression registry and
+// cut their batches at the same moment. Every accepted operation is anchored exactly once and every anchored batch reads back.
+func writersSharingCompression(c *hx.Ctx) {
+	r := c.Rng("shared-compression")
+	p := c13Proto(ref.SHA256)
+	p.MaxOperationCount = 4
+	const nWriters = 4
+	for round := 0; round < c.N(2, 25); round++ {
+		c.Eval()
+		type wr struct {
+			w      *batch.Writer
+			anchor *recAnchor
+			v      *hx.Version
+			sub    map[string]bool
+		}
+		var ws []*wr
+		for k := 0; k < nWriters; k++ {
+			l := &wlog{}
+			yield := func(string) {}
+			v := hx.NewVersion(p, hx.VersionOpts{CAS: hx.NewMemCAS()})
+			anchor := &recAnchor{log: l, yield: yield}
+			w, err := batch.New(hx.Namespace, &writerCtx{pc: hx.NewClient(v), a: anchor, q: newRecQueue(l, yield)})
+			if err != nil {
+				c.Inconclusive("batch.New: %v", err)
+				return
+			}
+			x := &wr{w: w, anchor: anchor, v: v, sub: map[string]bool{}}
+			for _, ops := range batchPool(r, ref.SHA256, 10, k%2 == 0) {
+				if err := w.Add(ops[0].queued(), p.GenesisTime); err != nil {
+					c.Violation("C16 batch writer refused a valid create: "+err.Error(), nil)
+					return
+				}
+				x.sub[ops[0].Suffix] = true
+			}
+			ws = append(ws, x)
+		}
+		var wg sync.WaitGroup
+		var mu sync.Mutex
+		problem := ""
+		for _, x := range ws {
+			wg.Add(1)
+			go func(x *wr) {
+				defer wg.Done()
+				defer func() {
+					if rec := recover(); rec != nil {
+						mu.Lock()
+						problem = fmt.Sprintf("a batch writer panicked while another writer of the node was cutting a batch: %v", rec)
+						mu.Unlock()
+					}
+				}()
+				for k := 0; k < 8; k++ {
+					x.w.VerifProcessAvailable(true)
+				}
+			}(x)
+		}
+		wg.Wait()
+		if problem != "" {
+			c.Violation("C16 (writers sharing the compression registry) "+problem, nil)
+			return
+		}
+		for wi, x := range ws {
+			seen := map[string]int{}
+			for _, a := range x.anchor.Seen {
+				got, err := x.v.Provider.GetTxnOperations(&txn.SidetreeTxn{AnchorString: a, Namespace: hx.Namespace, TransactionTime: 1, ProtocolVersion: p.GenesisTime})
+				if err != nil {
+					c.Violation(fmt.Sprintf("C16 (writers sharing the compression registry) a batch anchored by writer %d cannot be read back: %v", wi, err), map[string]interface{}{"anchor": a})
+					return
+				}
+				for _, o := range got {
+					seen[o.UniqueSuffix]++
+				}
+			}
+			for sfx := range x.sub {
+				if seen[sfx] != 1 {
+					c.Violation(fmt.Sprintf("C16 (writers sharing the compression registry) an accepted operation of writer %d was anchored %d times (expected exactly once)", wi, seen[sfx]), map[string]interface{}{"suffix": sfx})
+					return
+				}
+			}
+		}
+		c.Count("rounds_with_writers_sharing_the_compression_registry")
+	}
 }
 
 func realHandlerSlice(c *hx.Ctx) {
@@ -667,6 +753,11 @@ func realHandlerSlice(c *hx.Ctx) {
 			b := hx.Pick(r, cands)
 			usedReq[b.ID] = true
 			qo := b.queued()
+			if run%3 == 2 && r.Chance(1, 2) {
+				// the same DID addressed through a namespace alias: still the same DID for "one operation per DID per batch"
+				qo.Namespace = "did:alias"
+				c.Count("real_handler_operations_queued_under_a_namespace_alias")
+			}
 			qo.Properties = []operation.Property{{Key: "id", Value: b.ID}}
 			ops[b.ID] = opInfo{p.GenesisTime, b.Suffix, false}
 			l.add(wev{Kind: "add.call", IDs: []string{b.ID}})
